@@ -66,6 +66,35 @@ def read_bytes(name):
         return '<directory>'
 
 
+class Interrupt(KeyboardInterrupt):
+    """what a user's Ctrl-C (or an error inside the optimiser / the resampling) looks like"""
+
+
+class EngineProxy:
+    """Stands in front of the cythonbiogeme object: remembers the log likelihood the engine returned
+    (the total over the sample, before any scaling by the caller)."""
+
+    def __init__(self, c):
+        self.__dict__['_c'] = c
+        self.__dict__['last_f'] = None
+        self.__dict__['calls'] = 0
+
+    def __getattr__(self, n):
+        return getattr(self.__dict__['_c'], n)
+
+    def __setattr__(self, n, v):
+        setattr(self.__dict__['_c'], n, v)
+
+    def calculateLikelihoodAndDerivatives(self, *a, **k):
+        r = self.__dict__['_c'].calculateLikelihoodAndDerivatives(*a, **k)
+        try:
+            self.__dict__['last_f'] = float(r[0])
+            self.__dict__['calls'] += 1
+        except Exception:  # noqa
+            self.__dict__['last_f'] = None
+        return r
+
+
 def build(sess, init=None):
     """A new BIOGEME object = what a new process would construct."""
     names = sess['names']  # in the order chosen by the harness (sorted)
@@ -94,6 +123,7 @@ def build(sess, init=None):
     B.generate_html = False
     B.generate_pickle = False
     B.bootstrap_samples = int(sess.get('bootstrap_samples', 2))
+    B.theC = EngineProxy(B.theC)
     return B
 
 
@@ -116,27 +146,49 @@ def snap(B, sess):
     return s
 
 
-def one_eval(B, x):
-    r = B.calculate_likelihood_and_derivatives(np.array([unhex(v) for v in x], dtype=float), scaled=False)
+def raw_f(B, fallback):
+    p = getattr(B, 'theC', None)
+    v = getattr(p, 'last_f', None) if isinstance(p, EngineProxy) else None
+    return fhex(v if v is not None else fallback)
+
+
+def one_eval(B, op):
+    x = np.array([unhex(v) for v in op['x']], dtype=float)
+    kw = {'scaled': bool(op.get('scaled', False))}
+    if op.get('hessian'):
+        kw['hessian'] = True
+    if op.get('bhhh'):
+        kw['bhhh'] = True
+    fn = B.calculateLikelihoodAndDerivatives if op.get('alias') else B.calculate_likelihood_and_derivatives
+    r = fn(x, **kw)
     g = np.asarray(r.gradient)
-    return {'f': fhex(r.function), 'gfin': bool(np.isfinite(np.linalg.norm(g)))}
+    # f = what the engine returned (total); ret = what the caller got (divided by N when scaled)
+    return {'f': raw_f(B, r.function), 'ret': fhex(r.function), 'scaled': kw['scaled'],
+            'gfin': bool(np.isfinite(np.linalg.norm(g)))}
 
 
-def instrument(B, sess, inner):
-    """Record every derivative evaluation issued by the optimiser, and every bootstrap sample."""
+def instrument(B, sess, inner, op=None):
+    """Record every derivative evaluation issued through the public method (by the optimiser, the
+    finite-difference hessian, check_derivatives), and every bootstrap sample.  Optionally leave the call
+    by an exception right after the k-th evaluation / at the j-th resampling."""
+    op = op or {}
     orig = B.calculate_likelihood_and_derivatives
-    state = {'boot': False}
+    state = {'boot': False, 'n': 0, 'samples': 0}
 
-    def wrapped(x, **kw):
-        r = orig(x, **kw)
+    def wrapped(x, *a, **kw):
+        r = orig(x, *a, **kw)
+        state['n'] += 1
         try:
             g = np.asarray(r.gradient)
-            rec = {'x': [fhex(v) for v in x], 'f': fhex(r.function), 'scaled': bool(kw.get('scaled')),
+            scaled = bool(kw.get('scaled', a[0] if a else False))
+            rec = {'x': [fhex(v) for v in x], 'f': raw_f(B, r.function), 'ret': fhex(r.function), 'scaled': scaled,
                    'gfin': bool(np.isfinite(np.linalg.norm(g))), 'boot': state['boot']}
             rec.update(snap(B, sess))
             inner.append(rec)
         except Exception as e:  # noqa
             inner.append({'harness_exc': repr(e)})
+        if op.get('interrupt_at') is not None and state['n'] == op['interrupt_at']:
+            raise Interrupt()
         return r
 
     B.calculate_likelihood_and_derivatives = wrapped
@@ -145,7 +197,10 @@ def instrument(B, sess, inner):
 
     def sample(*a, **k):
         state['boot'] = True
+        state['samples'] += 1
         inner.append({'sample': True})
+        if op.get('interrupt_sample') is not None and state['samples'] == op['interrupt_sample']:
+            raise Interrupt()
         return o1(*a, **k)
 
     dbase.sample_with_replacement = sample
@@ -163,25 +218,35 @@ def instrument(B, sess, inner):
     return undo
 
 
-def run_call(B, sess, kind):
+def run_call(B, sess, kind, op=None):
     inner = []
-    undo = instrument(B, sess, inner)
+    undo = instrument(B, sess, inner, op)
     res = {'inner': inner}
     try:
+        r = None
         if kind == 'estimate':
             r = B.estimate()
         elif kind == 'estimate_boot':
             r = B.estimate(run_bootstrap=True)
         elif kind == 'quick':
             r = B.quick_estimate()
+        elif kind == 'findiff':
+            B.likelihood_finite_difference_hessian(np.array([unhex(v) for v in op['x']], dtype=float))
+        elif kind == 'checkder':
+            B.check_derivatives(np.array([unhex(v) for v in op['x']], dtype=float))
         else:
             raise ValueError(kind)
         res['ok'] = True
-        try:
-            bv = r.get_beta_values()
-            res['estimates'] = [fhex(bv[n]) for n in B.id_manager.free_betas.names]
-        except Exception as e:  # noqa
-            res['estimates_exc'] = repr(e)
+        if r is not None:
+            try:
+                bv = r.get_beta_values()
+                res['estimates'] = [fhex(bv[n]) for n in B.id_manager.free_betas.names]
+            except Exception as e:  # noqa
+                res['estimates_exc'] = repr(e)
+    except Interrupt:
+        res['ok'] = False
+        res['interrupted'] = True
+        res['exc'] = 'Interrupt'
     except BaseException as e:  # noqa
         res['ok'] = False
         res['exc'] = type(e).__name__
@@ -201,14 +266,14 @@ def run_ops(sess, ops, B=None):
                 B = build(sess, op.get('init'))
             elif kind == 'eval':
                 try:
-                    rec.update(one_eval(B, op['x']))
+                    rec.update(one_eval(B, op))
                     rec['ok'] = True
                 except Exception as e:  # noqa
                     rec['ok'] = False
                     rec['exc'] = type(e).__name__
                     rec['msg'] = str(e)[:200]
-            elif kind in ('estimate', 'estimate_boot', 'quick'):
-                rec.update(run_call(B, sess, kind))
+            elif kind in ('estimate', 'estimate_boot', 'quick', 'findiff', 'checkder'):
+                rec.update(run_call(B, sess, kind, op))
             elif kind == 'load':
                 try:
                     B._load_saved_iteration()
@@ -282,6 +347,8 @@ def install_crash(plan):
     real_replace = os.replace
 
     class W:
+        """budget counted in BYTES of the encoded text (a crash may fall inside a multi-byte character)"""
+
         def __init__(self, f, budget):
             self.f = f
             self.budget = budget
@@ -289,16 +356,18 @@ def install_crash(plan):
         def write(self, s):
             if self.budget is None:
                 return self.f.write(s)
-            if len(s) <= self.budget:
-                self.f.write(s)
-                self.f.flush()
-                self.budget -= len(s)
-                if self.budget == 0 and plan.get('exact', True):
+            b = s.encode(self.f.encoding or 'utf-8')
+            self.f.flush()
+            if len(b) <= self.budget:
+                self.f.buffer.write(b)
+                self.f.buffer.flush()
+                self.budget -= len(b)
+                if self.budget == 0:
                     # stop right after the k-th byte
                     os._exit(77)
                 return len(s)
-            self.f.write(s[:self.budget])
-            self.f.flush()
+            self.f.buffer.write(b[:self.budget])
+            self.f.buffer.flush()
             os._exit(77)
 
         def __enter__(self):
